@@ -8,11 +8,13 @@ CONSTANTS
   OpTheories <- cTheories
   OpModules <- cModules
   Present0 <- cTheories
+  Origin <- cOrigin
   Items0 <- cItems0
   LimitsOf <- cLimits
   FileOps = {}
   Variants <- cVariants
   GoodVariants <- Fixed
+  PrintGood = FALSE
   MaxOps = 2
   MaxDepth = 40
   AllowFault = TRUE
